@@ -142,7 +142,7 @@ def run(ctx):
                     ]
     ctx.assumptions += ["spsolve returns the solution of a nonsingular system (checked a posteriori with exact "
                         "rational elimination on the same data)",
-                    "mpc is covered by the search only (no theorem yet)"]
+                    ]
     if not getattr(ctx, "no_lean", False):
         ctx.prove(["SkfemVerif.Props.C05"], ["SkfemVerif/Props/C05.lean"])
     reqs, post = [], []
@@ -321,8 +321,14 @@ def run(ctx):
             S, M = np.array(idx[:k]), np.array(idx[k:2 * k])
             T = sp.csr_matrix(np.array([[ctx.rng.randint(-2, 2) / 2 for _ in range(k)] for _ in range(k)]))
             g = np.array([ctx.rng.randint(-2, 2) / 2 for _ in range(k)])
-            z = solve(*mpc(A, b, S=S, M=M, T=T, g=g))
+            red = mpc(A, b, S=S, M=M, T=T, g=g)
+            z = solve(*red)
             U = np.setdiff1d(np.arange(n), np.concatenate((M, S)))
+            wsol = np.linalg.solve(red[0].toarray(), red[1])
+            reqs.append({"op": "bc.mpc", "n": n, "A": dense_q(A), "b": vec_q(b), "U": U.tolist(), "M": M.tolist(),
+                         "S": S.tolist(), "T": dense_q(T), "g": vec_q(g), "w": vec_q(wsol)})
+            post.append(("mpc", {"A": A.toarray().tolist(), "S": S.tolist(), "M": M.tolist()},
+                         (red[0].toarray().tolist(), red[1].tolist(), z.tolist())))
             ok = np.allclose(z[S], T @ z[M] + g, atol=1e-9)
             # reduced equations: rows U exactly; rows M combined with T^T rows S is NOT what the code does
             # (it drops the S rows): check the U rows and the M rows of A z = b
@@ -360,6 +366,10 @@ def run(ctx):
             ctx.corr("bc.condense", close(unq(out["AII"]), impl[0]) and close(unq(out["bI"]), impl[1]), inp, out, impl)
         elif kind in ("enforce", "penalize"):
             ctx.corr("bc." + kind, close(unq(out["A"]), impl[0]) and close(unq(out["b"]), impl[1]), inp, out, impl)
+        elif kind == "mpc":
+            ctx.corr("bc.mpc", close(unq(out["B"]), impl[0]) and close(unq(out["y"]), impl[1])
+                     and np.allclose([float(v) for v in unq(out["z"])], impl[2], rtol=1e-9, atol=1e-9), inp,
+                     "model B, y, z", "implementation")
         elif kind == "enforce.idx":
             ctx.corr("bc.enforce.idx", out["idx"] == out["ranges"] and (impl is None or impl == out["idx"]), inp,
                      out["idx"], impl)
